@@ -253,7 +253,7 @@ def check_script(sc, res):
     for (devid, kind), n_ in want.items():
         if got_k.get((str(devid), kind), 0) < n_:
             out.append(("wrong-outcome", "%d request(s) to %s should end in %s; outcomes from that peer: %r" % (
-                n_, devid, kind, sorted(k for (d, k) in got_k.elements() if d == str(devid)))))
+                n_, devid, kind, sorted((k, c) for (d, k), c in got_k.items() if d == str(devid)))))
     r = res["residue"]
     if r["a"]["client"] or r["a"]["server"] or r["a"].get("queues"):
         out.append(("residue-transaction", "transactions left: %r" % (r,)))
